@@ -62,6 +62,10 @@ type Model struct {
 
 type cont func(pos int, e *Env) bool
 
+// trackUnbound (C14): set while a model evaluation should report references that
+// were evaluated before their group was bound.
+var trackUnbound *refTracker
+
 func isWord(c byte) bool {
 	return c >= 'a' && c <= 'z' || c >= 'A' && c <= 'Z' || c >= '0' && c <= '9' || c == '_'
 }
@@ -249,6 +253,9 @@ func (m *Model) match(n *Node, pos int, e *Env, k cont) bool {
 	case KRef:
 		v, ok := e.Get(n.S)
 		if !ok {
+			if trackUnbound != nil {
+				trackUnbound.unboundRef = true
+			}
 			return false
 		}
 		if pos+len(v) > len(t) || t[pos:pos+len(v)] != v {
